@@ -16,7 +16,10 @@
    (exact, not an over-approximation: the driver only ever writes non-zero
    values).  The caller owns a buffer between Get and Put and may mutate it
    within Go's slice rules ([mutation]); ownership is exclusive (no use after
-   Put, no double Put: such ops are ignored by the model, see [legal_op]). *)
+   Put, no double Put: such ops are ignored by the model, see [legal_op]).
+
+   The model follows /repo after the fix beefe1b7 (putItemBuf clears the whole
+   backing array). *)
 From Coq Require Import List NArith ZArith Bool.
 Import ListNotations.
 Open Scope N_scope.
@@ -171,7 +174,11 @@ Definition put (k : kind) (s : st) (h : N) : st :=
       if (b_cap b =? 0) || (maxlen k <? b_cap b) then s'        (* dropped *)
       else
         let idx := prev_log2 k (b_cap b) in
-        let d := match k with BB => b_dirty b | _ => clear_below (b_len b) (b_dirty b) end in
+        let d := match k with
+                 | BB => b_dirty b                                  (* Reset: no clearing *)
+                 | BS => clear_below (b_len b) (b_dirty b)          (* for i := range buf.B { buf.B[i] = nil } *)
+                 | IB => clear_below (b_cap b) (b_dirty b)          (* buf.B = buf.B[:capacity]; clear(buf.B) *)
+                 end in
         mkSt ((idx, h, mkBuf (b_cap b) 0 d) :: pooled s) rest (next_id s)
   end.
 
@@ -238,30 +245,18 @@ Fixpoint legal_from (k : kind) (s : st) (ops : list op) : bool :=
   | o :: ops' => legal_op k s o && legal_from k (fst (step k s o)) ops'
   end.
 
-(* A Put is "covered" when every non-zero slot of the buffer lies below its
-   current length, i.e. the clearing loop `for i := range buf.B` reaches it. *)
+(* every non-zero slot lies below [len] (or the interval is empty) *)
 Definition dirty_below (len : N) (d : list (N * N)) : bool :=
   forallb (fun '(lo, hi) => (hi <=? len) || (hi <=? lo)) d.
 
-Definition put_covered (s : st) (o : op) : bool :=
-  match o with
-  | OPut h => match take_held h (held s) with
-              | Some (b, _) => dirty_below (b_len b) (b_dirty b)
-              | None => true
-              end
-  | _ => true
-  end.
-
-Fixpoint covered_from (k : kind) (s : st) (ops : list op) : bool :=
-  match ops with
-  | [] => true
-  | o :: ops' => put_covered s o && covered_from k (fst (step k s o)) ops'
-  end.
-
-(* the discipline of writer.go: itemBuf.B itself is never reassigned between
-   getItemBuf and putItemBuf; slots are only written below len *)
-Definition no_reslice_op (o : op) : bool :=
-  match o with
-  | OMut _ (MReslice _) | OMut _ (MSetNew _ _ _) => false
-  | _ => true
+(* putItemBuf as it was before the fix (commit beefe1b7): it cleared only
+   B[0:len] (`for i := range buf.B { buf.B[i] = queue.Item{} }`).  Kept for
+   the refutation theorem C42_item_prefix_clear_refuted. *)
+Definition put_item_prefix_clear (s : st) (h : N) : st :=
+  match take_held h (held s) with
+  | None => s
+  | Some (b, rest) =>
+      if (b_cap b =? 0) || (maxlen IB <? b_cap b) then mkSt (pooled s) rest (next_id s)
+      else mkSt ((prev_log2 IB (b_cap b), h, mkBuf (b_cap b) 0 (clear_below (b_len b) (b_dirty b))) :: pooled s)
+                rest (next_id s)
   end.
